@@ -496,8 +496,16 @@ func verifC32Generate() []string {
 
 	// 3. seeded random operands
 	n := vh.Budget(30000, 1500000)
+	// unary opcodes have a small boundary grid: give them three times the random weight
+	var weighted []verifC32Op
+	for _, o := range verifC32Ops {
+		weighted = append(weighted, o)
+		if len(o.kinds) == 1 {
+			weighted = append(weighted, o, o)
+		}
+	}
 	for i := 0; i < n; i++ {
-		o := verifC32Ops[rng.Intn(len(verifC32Ops))]
+		o := weighted[rng.Intn(len(weighted))]
 		switch o.kinds {
 		case "i":
 			a := rng.Biased64()
